@@ -102,6 +102,8 @@ func zzC12(n int) {
 	}
 }
 
+// the batch query equals the single queries also for fractional total weights
+func ZZ_C12_batch_with_fractional_weights() { zzC11(1, true) }
 func ZZ_C12_n0() { zzC12(0) }
 func ZZ_C12_n1() { zzC12(1) }
 func ZZ_C12_n2() { zzC12(2) }
